@@ -3,7 +3,7 @@
 
    Compared per step: return value / exception class; AudioListener events with payloads
    (tags_changed as the SORTED key list: the property speaks of the set of keys, not of dict
-   order); commands received by the fake playbin/queue; Audio.state, _target_state,
+   order); set_state / uri / seek commands received by the fake playbin/queue; Audio.state, _target_state,
    _buffering (named by the property's anchors); get_current_tags() as a key-sorted list. *)
 From Coq Require Import ZArith List Bool.
 From Common Require Import Res Str.
@@ -96,12 +96,17 @@ Definition oret_eqb (a b : oret) : bool :=
   | _, _ => false
   end.
 
+(* Commands compared: set_state, the uri property and seeks.  The playbin "flags" property
+   (download buffering) is modelled but not compared: the property does not speak about it,
+   and a reordering of the two set_property calls in set_uri would be harmless. *)
+Definition compared_cmd (c : cmd) : bool := match c with CFlags _ => false | _ => true end.
+
 (* one model step against one observed step *)
 Definition step_ok (w : world) (i : input) (b : obs) : bool :=
   let '(w', o) := step w i in
   oret_eqb (obs_ret (o_ret o)) (b_ret b)
   && list_eqb oevent_eqb (map obs_event (o_evs o)) (b_evs b)
-  && list_eqb cmd_eqb (o_cmds o) (b_cmds b)
+  && list_eqb cmd_eqb (filter compared_cmd (o_cmds o)) (b_cmds b)
   && pstate_eqb (st w') (b_st b)
   && gst_eqb (target w') (b_target b)
   && Bool.eqb (buffering w') (b_buf b)
